@@ -52,3 +52,15 @@ e("iqpe-control-keeps-bit-list", ["C20"],
   ("tangelo/algorithms/projective/iqpe.py", "            self.energies[self.n_runs] += int(measurement)/2**self.bitplace", "            self.energies[self.n_runs] = self.energies[self.n_runs] + int(measurement)/2**self.bitplace"))
 
 EDITS = E
+
+# ---- C13 ------------------------------------------------------------------------------------------------------------
+e("pad-copies-with-np-array", ["C13"],
+  ("tangelo/toolboxes/molecular_computation/rdms.py", "    twordm = twordm.transpose(1, 0, 3, 2).copy()", "    twordm = np.array(twordm.transpose(1, 0, 3, 2), copy=True)"))
+e("vqe-rdm-spin-sum-vectorised", ["C13"],
+  (VQE, "            for i, j in itertools.product(range(n_spin_orbitals), repeat=2):\n                rdm1_np[i//2, j//2] += rdm1_spin[i, j]",
+   "            rdm1_np += rdm1_spin.reshape(n_mol_orbitals, 2, n_mol_orbitals, 2).sum(axis=(1, 3))"))
+e("fci-closed-shell-uses-make-rdm12", ["C13"],
+  ("tangelo/algorithms/classical/fci_solver.py", "                one_rdm = self.cisolver.make_rdm1(self.ci, self.norb, self.nelec)\n                two_rdm = self.cisolver.make_rdm2(self.ci, self.norb, self.nelec)",
+   "                one_rdm, two_rdm = self.cisolver.make_rdm12(self.ci, self.norb, self.nelec)"))
+e("vqe-rdm-fresh-frequency-dict-each-call", ["C13", "C08"],
+  (VQE, "        # save rdm frequency dictionary\n        self.rdm_freq_dict = qb_freq_dict\n\n        if sum_spin:", "        # save rdm frequency dictionary\n        self.rdm_freq_dict = dict(qb_freq_dict)\n\n        if sum_spin:"))
